@@ -81,7 +81,7 @@ def dq_clear(self):
     self.n = 0
 
 
-model('ghost:Deque#c09', fields=dict(n=Int), methods=dict(clear=dq_clear))
+model('ghost:Deque#c09', fields=dict(n=Int), methods=dict(clear=dq_clear), cls_attrs=dict(adopt_empty_seq='n'))
 
 
 def chan_emit(ghost, event, *args):
@@ -117,6 +117,7 @@ model(
         channels=RefT('odicts'),
         le_coc_channels=RefT('odicts'),
         identifiers=RefT('idicts'),
+        pending_credit_based_connections=RefT('podicts'),
     ),
     methods={'send_control_frame': Callback('send_control_frame', effect=mgr_send_control_frame)},
 )
@@ -129,6 +130,8 @@ HEAP = dict(
     cdicts=PoolOf(dict_of=RefT('chans')),
     odicts=PoolOf(dict_of=RefT('cdicts')),
     idicts=PoolOf(dict_of=IntRange(0, 255)),
+    pdicts=PoolOf(dict_of=TupleOf(RefT('futs'), Opaque('chlist'))),
+    podicts=PoolOf(dict_of=RefT('pdicts')),
     mgrs=PoolOf('bumble.l2cap:ChannelManager#c09'),
     emitted=Int,
     frames=Int,
@@ -221,8 +224,8 @@ def closed_effect(self, self0, channel, ghost, ghost0):
     d_ch, d_le = inner(ch0, h), inner(le0, h)
     return [
         entry(self.channels, h, channel.source_cid) is None,
-        # the LE table entry of *this* channel is gone too (an entry of another channel stays)
-        not same(entry(self.le_coc_channels, h, channel.destination_cid), channel),
+        # the LE table entry of *this* channel is gone too (an entry of another channel stays, see foreign-le-entry-kept)
+        implies(same(entry(le0, h, channel.destination_cid), channel), entry(self.le_coc_channels, h, channel.destination_cid) is None),
         # frame: the outer tables keep their inner dicts, the inner dicts of other connections are untouched, and in
         # the two inner dicts of this connection only the slots of this channel changed
         dict_same(self.channels, ch0),
@@ -364,5 +367,6 @@ contract(
         pool_same_except(ghost.idicts, old.ghost.idicts, [self.identifiers]),
     ],
     ensures_names=['valid-identifier', 'successor-skipping-0', 'remembered', 'other-connections-untouched', 'other-managers-untouched'],
+    returns=IntRange(1, 255),
     modifies=['ghost.idicts'],
 )
